@@ -1,7 +1,7 @@
 (* C14 — Sequencers hand out disjoint gap-free ranges; cursor is the published prefix. *)
 From Coq Require Import List Arith NArith Lia.
 From DC Require Import Disruptor.Claims Disruptor.Pipeline.
-From DC Require Disruptor.SeqApi Disruptor.SeqApiProofs Disruptor.SeqApiMulti.
+From DC Require Disruptor.SeqApi Disruptor.SeqApiProofs Disruptor.SeqApiMulti Disruptor.MultiPub.
 Import ListNotations.
 
 (* concurrent claims by any number of threads (any interleaving of loads and compare-and-swaps on the high
@@ -70,7 +70,37 @@ Theorem C14_multi_stranding_refuted :
             SeqApi.check false SeqApi.c_init l (SeqApi.mp_run (SeqApi.mp_init 8 1) l) = 5%N.
 Proof. eexists. exact SeqApiMulti.mp_stranding. Qed.
 
+(* MultiProducerSequencer under TRUE CONCURRENCY (Disruptor/MultiPub.v): any number of producer threads, every atomic
+   operation of next() and publish() - the CAS on the high watermark, each ready-bit set, the low-watermark read, each
+   bit test of the scan, each bit clear, every attempt of the CAS loop on the cursor, the low-watermark store - a
+   separate step, ANY interleaving, consumers moving at any time, any ring size N >= 1: the cursor never covers a
+   sequence whose claimant has not published it, and it never decreases. *)
+Theorem C14_multi_concurrent_never_past_unpublished : forall N, 1 <= N -> forall s,
+  MultiPub.reachable N s -> forall q, 1 <= q <= MultiPub.cursor s -> MultiPub.pub s q = true.
+Proof. exact MultiPub.cursor_only_published. Qed.
+
+Theorem C14_multi_concurrent_cursor_monotone : forall N, 1 <= N -> forall s s',
+  MultiPub.reachable N s -> MultiPub.step N s s' -> MultiPub.cursor s <= MultiPub.cursor s'.
+Proof. exact MultiPub.cursor_monotone. Qed.
+
+Theorem C14_multi_concurrent_claims_disjoint : forall N, 1 <= N -> forall s t t' lo hi lo' hi',
+  MultiPub.reachable N s -> t <> t' -> MultiPub.tp s t = MultiPub.TClaimed lo hi -> MultiPub.tp s t' = MultiPub.TClaimed lo' hi' ->
+  hi < lo' \/ hi' < lo.
+Proof. exact MultiPub.mp_claims_disjoint. Qed.
+
+(* ... while "once all claimants have published it equals the highest claimed sequence" FAILS (finding D8): a reachable
+   state with every producer idle, everything published and the cursor below the high watermark *)
+Theorem C14_multi_concurrent_stranding_refuted :
+  exists s, MultiPub.reachable 8 s /\ MultiPub.tp s 0 = MultiPub.TIdle /\ MultiPub.tp s 1 = MultiPub.TIdle /\
+            MultiPub.high s = 4 /\ MultiPub.cursor s = 2 /\
+            MultiPub.pub s 1 = true /\ MultiPub.pub s 2 = true /\ MultiPub.pub s 3 = true /\ MultiPub.pub s 4 = true.
+Proof. exact MultiPub.stranding_reachable. Qed.
+
 Print Assumptions C14_claims_tile_in_claim_order.
+Print Assumptions C14_multi_concurrent_never_past_unpublished.
+Print Assumptions C14_multi_concurrent_cursor_monotone.
+Print Assumptions C14_multi_concurrent_claims_disjoint.
+Print Assumptions C14_multi_concurrent_stranding_refuted.
 Print Assumptions C14_multi_sequencer_api.
 Print Assumptions C14_multi_stranding_refuted.
 Print Assumptions C14_single_sequencer_api.
